@@ -69,6 +69,18 @@ def run(ctx):
             if want and ma is not None and len(ma) != want:
                 ctx.violation("start() message of %s has %d bytes, the published format has %d" % (ps, len(ma), want),
                               {"kind": "length", "ps": ps, "len": len(ma)})
+    # very long passwords and identities (kilobytes), on a toy and a shipped set
+    big = bytes((i * 11 + 5) % 256 for i in range(66000))
+    for ps, g in (("Pi23", "i23"), ("PEd25519", "Ed25519"), ("P1024", "I1024")):
+        q = uni.group(g).order()
+        for k, (pw, ids) in enumerate([(big[:3000], (b"a", b"b")), (b"pw", (big[:65537], big[:2])), (big[:1025], (big[:1024], big[:4097]))]):
+            if k and not thorough and g != "i23":
+                continue
+            pairing = "AB" if k % 2 == 0 else "SS"
+            idt = ids if pairing == "AB" else (ids[0],)
+            r = exchange(uni, "long-inputs/%s/%d" % (ps, k), pairing, ps, pw, pw, idt, idt,
+                         mp.stream_for(g, 3 % q), mp.stream_for(g, 5 % q), restoreA=1)
+            traces.append(r.json())
     ctx.validate(traces, uni, what="interop exchange")
     # 4. code -> spec: every session the repository's own 43 tests create, validated against the specification
     import subprocess
